@@ -123,7 +123,7 @@ func tTag(c context, s []byte) (context, int) {
 	// Find the attribute name. Like white space, a "/" separates the attributes of a
 	// start tag: a browser ignores it unless it is directly followed by ">".
 	i := eatWhiteSpace(s, 0)
-	for c.element.name != "" && i < len(s) && s[i] == '/' {
+	for (c.element.name != "" || len(c.element.names) > 0) && i < len(s) && s[i] == '/' {
 		i = eatWhiteSpace(s, i+1)
 	}
 	if i == len(s) {
